@@ -83,14 +83,19 @@ def rootsList (s : State) : State × List Nat :=
     | none => acc
     | some (s', r) => (s', acc.2 ++ [r])) (s, [])
 
-/-- `component x` as the list of elements (in `_elts` order) whose root equals the root of `x`. -/
+/-- one step of the generator `e for e in self._elts if self.find(e) == root` of `component` (every `find` may halve paths) -/
+def compStep (root : Nat) (acc : State × List Nat) (e : Nat) : State × List Nat :=
+  match find acc.1 e with
+  | none => acc
+  | some (s', r) => if r = root then (s', acc.2 ++ [e]) else (s', acc.2)
+
+/-- `component x`, in the order of the code: membership guard, `root = find(x)`, then the elements (in `_elts` order)
+whose `find` equals `root`. -/
 def component (s : State) (x : Nat) : Option (State × List Nat) :=
   if s.mem x then
-    let (s1, rs) := rootsList s
-    match find s1 x with
+    match find s x with
     | none => none
-    | some (s2, rx) =>
-      some (s2, (s.elts.zip rs).filterMap (fun (e, r) => if r = rx then some e else none))
+    | some (s1, rx) => some (s1.elts.foldl (compStep rx) (s1, []))
   else none
 
 /-- Operations of a history. -/
